@@ -1,6 +1,434 @@
+/-
+  C13 — value transforms touch only non-zero entries and mean what they say.
+
+  Model of: `biom/_transform.pyx::_transform` (walk `indptr`, hand `data[start:end]`, the ID and
+  the metadata entry to the user function, assign the returned array back to the same slice with
+  numpy's slice-assignment rule), scipy's `eliminate_zeros`, `Table.transform` (layout chosen by
+  axis: CSC for samples, CSR for observations — the layout is an *input* `cs` with the contract
+  "well-formed, same dense content"; in place or on a copy), and the fixed functions of `norm`,
+  `pa`, `rankdata` (ranks are an input function: scipy.stats.rankdata is external).
+
+  `holds` is a declarative predicate on observations: the input table, the call log of the user
+  function recorded by the harness, the resulting table (vectors looked up by ID), the table
+  object after the call, and the number of explicitly stored zeros of the result.
+-/
 import BiomModel.Codec
 open Lean
+
 namespace Biom.C13
-/-- stub: not built yet -/
-def handle (_req : Json) : Codec.R Json := .error "C13: model not built yet"
+open Codec
+
+variable {α : Type}
+
+/-- the user function: stored values of one vector (storage order), its ID, its metadata entry -/
+abbrev VFun (α : Type) := List α → Id → Option Md → List α
+
+/-- one call of the user function, as recorded: what it received and what it returned -/
+structure Call (α : Type) where
+  id : Id
+  md : Option Md
+  args : List α
+  ret : List α
+  deriving Repr, DecidableEq
+
+/-! ### The kernel -/
+
+/-- numpy `data[start:end] = r`: equal length is stored as is, a length-1 result is broadcast
+over the slice (also over an empty one), anything else is "could not broadcast" (ValueError). -/
+def assign (seg r : List α) : Except Err (List α) :=
+  if r.length = seg.length then .ok r
+  else match r with
+    | [x] => .ok (List.replicate seg.length x)
+    | _ => .error .value
+
+/-- `xs[indptr[i]:indptr[i+1]]` with Python's clipping slice semantics -/
+def segOf (indptr : List Nat) (xs : List β) (i : Nat) : List β :=
+  (xs.drop (indptr.getD i 0)).take (indptr.getD (i + 1) 0 - indptr.getD i 0)
+
+/-- `metadata[i]`, where `metadata is None` was replaced by `(None,) * len(ids)` -/
+def mdAt (mds : Option (List Md)) (i : Nat) : Except Err (Option Md) :=
+  match mds with
+  | none => .ok none
+  | some m => match m[i]? with
+    | some e => .ok (some e)
+    | none => .error .index
+
+/-- the loop `for row_or_col in range(n)` from vector `i` on, `k` vectors to go -/
+def kLoop (f : VFun α) (indptr : List Nat) (ids : List Id) (mds : Option (List Md)) :
+    Nat → Nat → List α → Except Err (List α × List (Call α))
+  | 0, _, data => .ok (data, [])
+  | k + 1, i, data => do
+    let s ← getE indptr i
+    let e ← getE indptr (i + 1)
+    let id ← getE ids i
+    let md ← mdAt mds i
+    let seg := (data.drop s).take (e - s)
+    let ret := f seg id md
+    let w ← assign seg ret
+    let (d, l) ← kLoop f indptr ids mds k (i + 1) (data.take s ++ w ++ data.drop (s + seg.length))
+    pure (d, ⟨id, md, seg, ret⟩ :: l)
+
+/-- `_transform(arr, ids, metadata, function, axis)` with `arr.shape[axis]` = number of major
+vectors (CSR with axis 0, CSC with axis 1): the matrix with its value array rewritten, and the
+calls made, in order. -/
+def transformKernel (f : VFun α) (ids : List Id) (mds : Option (List Md)) (cs : CS α) :
+    Except Err (CS α × List (Call α)) := do
+  let (d, l) ← kLoop f cs.indptr ids mds cs.nMajor 0 cs.data
+  pure ({ cs with data := d }, l)
+
+/-! ### eliminate_zeros -/
+
+/-- row pointer of consecutive vectors with the given lengths, starting at offset `a` -/
+def ptrFrom : Nat → List Nat → List Nat
+  | a, [] => [a]
+  | a, l :: ls => a :: ptrFrom (a + l) ls
+
+/-- compressed matrix holding exactly the given entry lists, one per major vector -/
+def ofEntries (nMajor nMinor : Nat) (ents : List (List (Nat × α))) : CS α :=
+  { nMajor := nMajor, nMinor := nMinor,
+    indptr := ptrFrom 0 (ents.map (·.length)),
+    indices := (ents.map (·.map (·.1))).flatten,
+    data := (ents.map (·.map (·.2))).flatten }
+
+/-- scipy `eliminate_zeros`: entries whose value is zero are dropped, order otherwise kept -/
+def eliminateZeros [Zero α] [DecidableEq α] (cs : CS α) : CS α :=
+  ofEntries cs.nMajor cs.nMinor
+    ((List.range cs.nMajor).map (fun i => (cs.slice i).filter (fun e => decide (e.2 ≠ 0))))
+
+def storedZeros [Zero α] [DecidableEq α] (cs : CS α) : Nat :=
+  (cs.data.filter (fun x => decide (x = 0))).length
+
+/-! ### Table.transform -/
+
+/-- the grid seen from an axis: one list per vector of that axis -/
+def majorGrid (t : Table α) : Axis → List (List α)
+  | .obs => t.rows
+  | .samp => transposeGrid t.samp.length t.rows
+
+def setMajorGrid (t : Table α) (ax : Axis) (g : List (List α)) : Table α :=
+  match ax with
+  | .obs => { t with rows := g }
+  | .samp => { t with rows := transposeGrid t.obs.length g }
+
+/-- what one call of `Table.transform` lets an observer see -/
+structure Obs (α : Type) where
+  log : List (Call α)
+  result : Table α
+  /-- the receiver after the call -/
+  selfAfter : Table α
+  /-- the returned object is the receiver -/
+  sameObj : Bool
+  /-- explicitly stored zeros in the result's matrix -/
+  storedZeros : Nat
+  deriving Repr, DecidableEq
+
+/-- `Table.transform(f, axis, inplace)`; `cs` is what `_get_sparse_data(axis)` returns. -/
+def transform [Zero α] [DecidableEq α] (f : VFun α) (ax : Axis) (inplace : Bool) (t : Table α)
+    (cs : CS α) : Except Err (Obs α) := do
+  let (cs', log) ← transformKernel f (t.ids ax) (t.md ax) cs
+  let cs'' := eliminateZeros cs'
+  let r := setMajorGrid t ax cs''.toDense
+  pure { log := log, result := r, selfAfter := if inplace then r else t, sameObj := inplace,
+         storedZeros := storedZeros cs'' }
+
+/-! ### The fixed functions -/
+
+def normF [Add α] [Zero α] [Div α] : VFun α := fun v _ _ => v.map (· / sumL v)
+def paF [Zero α] [One α] [DecidableEq α] : VFun α := fun v _ _ => v.map (fun x => if x = 0 then 0 else 1)
+/-- `rankdata`: the ranking function is external (an input) -/
+def rankF (rank : List α → List α) : VFun α := fun v _ _ => rank v
+def elemF (g : α → α) : VFun α := fun v _ _ => v.map g
+
+/-! ### The property, stated on observations only -/
+
+def nz [Zero α] [DecidableEq α] (v : List α) : List α := v.filter (fun x => decide (x ≠ 0))
+
+/-- (input value, output value) of the cells of a vector that are non-zero in the input -/
+def nzPairs [Zero α] [DecidableEq α] (v w : List α) : List (α × α) :=
+  (v.zip w).filter (fun p => decide (p.1 ≠ 0))
+
+section clauses
+variable [Zero α] [DecidableEq α]
+
+/-- IDs, metadata, type of both axes are untouched; the result is a well-shaped table -/
+def cFrame (t r : Table α) : Bool :=
+  decide (r.obs = t.obs) && decide (r.samp = t.samp) && decide (r.omd = t.omd) &&
+  decide (r.smd = t.smd) && decide (r.ttype = t.ttype) && r.wfb
+
+/-- the function was called once per ID of the axis, in order, with that ID's metadata -/
+def cLogIds (t : Table α) (ax : Axis) (log : List (Call α)) : Bool :=
+  decide (log.map (·.id) = t.ids ax) && log.all (fun c => decide (c.md = t.mdOf? ax c.id))
+
+/-- the values passed are, as a multiset, the non-zero values of the ID's vector -/
+def cLogArgs (t : Table α) (ax : Axis) (log : List (Call α)) : Bool :=
+  log.all (fun c => match t.vec? ax c.id with
+    | some v => decide (c.args.Perm (nz v))
+    | none => false)
+
+/-- every returned value sits in the cell its argument came from: the (argument, returned value)
+pairs of a call are the (input, output) pairs of the vector's non-zero cells -/
+def cWriteBack (t : Table α) (ax : Axis) (log : List (Call α)) (r : Table α) : Bool :=
+  log.all (fun c => match t.vec? ax c.id, r.vec? ax c.id with
+    | some v, some w =>
+      c.ret.length == c.args.length && v.length == w.length &&
+      decide ((c.args.zip c.ret).Perm (nzPairs v w))
+    | _, _ => false)
+
+/-- zero cells stay zero, so no vector gains a non-zero cell -/
+def cZeros (t : Table α) (ax : Axis) (r : Table α) : Bool :=
+  (t.ids ax).all (fun id => match t.vec? ax id, r.vec? ax id with
+    | some v, some w =>
+      v.length == w.length && (v.zip w).all (fun p => decide (p.1 ≠ 0) || decide (p.2 = 0)) &&
+      decide ((nz w).length ≤ (nz v).length)
+    | _, _ => false)
+
+def cInplace (t : Table α) (inplace : Bool) (o : Obs α) : Bool :=
+  o.sameObj == inplace && (if inplace then decide (o.selfAfter = o.result) else decide (o.selfAfter = t))
+
+/-- the predicate for an arbitrary user function -/
+def holds (t : Table α) (ax : Axis) (inplace : Bool) (o : Obs α) : Bool :=
+  cFrame t o.result && cLogIds t ax o.log && cLogArgs t ax o.log && cWriteBack t ax o.log o.result &&
+  cZeros t ax o.result && o.storedZeros == 0 && cInplace t inplace o
+
+/-- element-wise function `g`: a cell holds `g` of its old value where that was non-zero -/
+def cElem (g : α → α) (t r : Table α) : Bool :=
+  decide (r.rows = t.rows.map (·.map (fun x => if x = 0 then 0 else g x)))
+
+/-- presence/absence: 1 exactly on the non-zero cells -/
+def cPa [One α] (t r : Table α) : Bool :=
+  decide (r.rows = t.rows.map (·.map (fun x => if x = 0 then 0 else 1)))
+
+/-- ranks: on each vector's non-zero cells the ranks `oracle` gives for the non-zero values
+(as value/rank pairs), every rank non-zero; zero elsewhere is `cZeros` -/
+def cRank (oracle : List α → List α) (t : Table α) (ax : Axis) (r : Table α) : Bool :=
+  (t.ids ax).all (fun id => match t.vec? ax id, r.vec? ax id with
+    | some v, some w =>
+      v.length == w.length && decide ((nzPairs v w).Perm ((nz v).zip (oracle (nz v)))) &&
+      (nzPairs v w).all (fun p => decide (p.2 ≠ 0))
+    | _, _ => false)
+
+end clauses
+
+def absR (x : Rat) : Rat := if x < 0 then -x else x
+def maxR (a b : Rat) : Rat := if a ≤ b then b else a
+/-- equality up to a relative tolerance (tolerance 0 = equality) -/
+def approx (tol a b : Rat) : Bool := decide (absR (a - b) ≤ tol * maxR (absR a) (absR b))
+
+/-- normalisation: every vector with non-zero total sums to 1 and keeps its proportions -/
+def cNorm (tol : Rat) (t : Table Rat) (ax : Axis) (r : Table Rat) : Bool :=
+  (t.ids ax).all (fun id => match t.vec? ax id, r.vec? ax id with
+    | some v, some w =>
+      v.length == w.length &&
+      (decide (sumL v = 0) ||
+        (approx tol (sumL w) 1 &&
+         (v.zip w).all (fun p => (v.zip w).all (fun q => approx tol (p.2 * q.1) (q.2 * p.1)))))
+    | _, _ => false)
+
+/-! ### Kernel-level predicate (flat arrays) -/
+
+/-- observation of one kernel run followed by `eliminate_zeros` -/
+structure KObs (α : Type) where
+  log : List (Call α)
+  data : List α
+  elim : CS α
+  deriving Repr, DecidableEq
+
+def holdsK [Zero α] [DecidableEq α] (ids : List Id) (mds : Option (List Md)) (cs : CS α) (o : KObs α) : Bool :=
+  -- one call per major vector, in order, with ID, metadata entry and exactly the stored slice
+  decide (o.log.map (·.id) = ids.take cs.nMajor) &&
+  decide (o.log.map (·.md) = (List.range cs.nMajor).map (fun i => (mds.bind (·[i]?)))) &&
+  decide (o.log.map (·.args) = (List.range cs.nMajor).map (segOf cs.indptr cs.data)) &&
+  -- the slice now holds what numpy's assignment makes of the returned values
+  o.log.length == cs.nMajor && o.data.length == cs.data.length &&
+  (o.log.zipIdx.all (fun ci => match assign ci.1.args ci.1.ret with
+    | .ok w => decide (w = segOf cs.indptr o.data ci.2)
+    | .error _ => false)) &&
+  -- eliminate_zeros keeps the content, stores no zero, and the support did not grow
+  decide (o.elim.toDense = ({ cs with data := o.data } : CS α).toDense) && storedZeros o.elim == 0 &&
+  o.elim.wfb
+
+/-! ### Named functions with Lean twins (correspondence only) -/
+
+inductive Fn where
+  | scale (k : Rat) | square | addOne | zeroBelow (k : Rat) | zeroOdd | fillSum | reverse
+  | bcastSum | dropLast | norm | pa | byIdMd
+  | table (rows : List (Id × List Rat × List Rat))
+  deriving Repr
+
+def Fn.eval : Fn → VFun Rat
+  | .scale k => elemF (· * k)
+  | .square => elemF (fun x => x * x)
+  | .addOne => elemF (· + 1)
+  | .zeroBelow k => elemF (fun x => if x < k then 0 else x)
+  | .zeroOdd => fun v _ _ => v.zipIdx.map (fun p => if p.2 % 2 = 1 then 0 else p.1)
+  | .fillSum => fun v _ _ => List.replicate v.length (sumL v)
+  | .reverse => fun v _ _ => v.reverse
+  | .bcastSum => fun v _ _ => [sumL v]
+  | .dropLast => fun v _ _ => v.dropLast
+  | .norm => normF
+  | .pa => paF
+  | .byIdMd => fun v id md =>
+      let k : Nat := id.length + (match md with | none => 0 | some m => 1 + m.length)
+      v.map (· * (k : Rat))
+  | .table rows => fun v id _ =>
+      match rows.find? (fun r => r.1 == id && r.2.1 == v) with
+      | some r => r.2.2
+      | none => v
+
+def Fn.elem? : Fn → Option (Rat → Rat)
+  | .scale k => some (· * k)
+  | .square => some (fun x => x * x)
+  | .addOne => some (· + 1)
+  | .zeroBelow k => some (fun x => if x < k then 0 else x)
+  | _ => none
+
+/-! ### JSON glue -/
+
+def asFn (j : Json) : R Fn := do
+  match (← strF j "name") with
+  | "scale" => pure (.scale (← asRat (← fld j "k")))
+  | "square" => pure .square
+  | "addOne" => pure .addOne
+  | "zeroBelow" => pure (.zeroBelow (← asRat (← fld j "k")))
+  | "zeroOdd" => pure .zeroOdd
+  | "fillSum" => pure .fillSum
+  | "reverse" => pure .reverse
+  | "bcastSum" => pure .bcastSum
+  | "dropLast" => pure .dropLast
+  | "norm" => pure .norm
+  | "pa" => pure .pa
+  | "byIdMd" => pure .byIdMd
+  | "table" =>
+    let rows ← listF (fun r => do
+      pure ((← strF r "id"), (← listF asRat r "args"), (← listF asRat r "ret"))) j "rows"
+    pure (.table rows)
+  | s => .error s!"bad fn {s}"
+
+def asCall (j : Json) : R (Call Rat) := do
+  pure { id := (← strF j "id"), md := (← optF asMd j "md"), args := (← listF asRat j "args"),
+         ret := (← listF asRat j "ret") }
+
+def callToJson (c : Call Rat) : Json :=
+  Json.mkObj [("id", .str c.id), ("md", optToJson mdToJson c.md), ("args", ratsToJson c.args),
+    ("ret", ratsToJson c.ret)]
+
+def logToJson (l : List (Call Rat)) : Json := .arr (l.map callToJson).toArray
+
+def asObs (j : Json) : R (Obs Rat) := do
+  pure { log := (← listF asCall j "log"), result := (← asTable (← fld j "result")),
+         selfAfter := (← asTable (← fld j "selfAfter")), sameObj := (← boolF j "sameObj"),
+         storedZeros := (← natF j "storedZeros") }
+
+def obsToJson (o : Obs Rat) : Json :=
+  Json.mkObj [("log", logToJson o.log), ("result", tableToJson o.result),
+    ("selfAfter", tableToJson o.selfAfter), ("sameObj", .bool o.sameObj), ("storedZeros", toJson o.storedZeros)]
+
+def firstFail (cs : List (String × Bool)) : Verdict :=
+  allV (cs.map (fun c => chk c.1 c.2))
+
+def gridApprox (tol : Rat) (a b : List (List Rat)) : Bool :=
+  a.length == b.length && (a.zip b).all (fun p => p.1.length == p.2.length &&
+    (p.1.zip p.2).all (fun q => approx tol q.1 q.2))
+
+def callsApprox (tol : Rat) (a b : List (Call Rat)) : Bool :=
+  a.length == b.length && (a.zip b).all (fun p => decide (p.1.id = p.2.id) && decide (p.1.md = p.2.md) &&
+    decide (p.1.args = p.2.args) && gridApprox tol [p.1.ret] [p.2.ret])
+
+def tableApprox (tol : Rat) (a b : Table Rat) : Bool :=
+  decide (({ a with rows := [] } : Table Rat) = { b with rows := [] }) && gridApprox tol a.rows b.rows
+
+/-- table-level request:
+`{"op":"transform","t":…,"axis":…,"inplace":…,"fn":…,"cs":…,"check":"generic|elem|norm|pa|rank",
+  "oracle":[{"id","args","ret"}…]?, "tol":"p/q", "obs":{log,result,selfAfter,sameObj,storedZeros}}` -/
+def handleTransform (req : Json) : R Json := do
+  let t ← asTable (← fld req "t")
+  let ax ← axisF req "axis"
+  let inplace ← boolF req "inplace"
+  let fn ← asFn (← fld req "fn")
+  let cs ← asCS (← fld req "cs")
+  let check ← strFD req "check" "generic"
+  let tol ← match optFld req "tol" with | none => pure (0 : Rat) | some v => asRat v
+  let obs ← asObs (← fld req "obs")
+  let r := obs.result
+  let generic : List (String × Bool) :=
+    [("frame", cFrame t r), ("log-ids", cLogIds t ax obs.log), ("log-args", cLogArgs t ax obs.log),
+     ("writes-back", cWriteBack t ax obs.log r), ("zero-stays-zero", cZeros t ax r),
+     ("no-stored-zeros", obs.storedZeros == 0), ("inplace", cInplace t inplace obs)]
+  let oracleFn : R (List Rat → List Rat) := do
+    let rows ← match optFld req "oracle" with
+      | none => pure []
+      | some o => asList (fun r => do pure ((← listF asRat r "args"), (← listF asRat r "ret"))) o
+    pure (fun v => match rows.find? (fun r => r.1 == v) with | some r => r.2 | none => [])
+  let specific : List (String × Bool) ← match check with
+    | "elem" => match fn.elem? with
+      | some g => pure [("elementwise-cell", cElem g t r)]
+      | none => .error "check elem needs an element-wise fn"
+    | "norm" => pure [("norm", cNorm tol t ax r)]
+    | "pa" => pure [("pa", cPa t r)]
+    | "rank" => do pure [("rank", cRank (← oracleFn) t ax r)]
+    | _ => pure []
+  let v := firstFail (generic ++ specific)
+  let m := transform fn.eval ax inplace t cs
+  let (agree, mj) := match m with
+    | .ok mo =>
+      (callsApprox tol mo.log obs.log && tableApprox tol mo.result r && tableApprox tol mo.selfAfter obs.selfAfter
+        && mo.sameObj == obs.sameObj && mo.storedZeros == obs.storedZeros
+        && holds t ax inplace mo,
+       Json.mkObj [("ok", obsToJson mo)])
+    | .error e => (false, errToJson e)
+  pure (Json.mkObj (verdictToJson v ++ [("agree", .bool agree), ("model", mj)]))
+
+/-- kernel-level request:
+`{"op":"kernel","cs":…,"ids":[…],"mds":[…]|null,"fn":…,"obs":{"error":name}|{"log","data","elim"}}` -/
+def handleKernel (req : Json) : R Json := do
+  let cs ← asCS (← fld req "cs")
+  let ids ← listF asStr req "ids"
+  let mds ← optF (asList asMd) req "mds"
+  let fn ← asFn (← fld req "fn")
+  let oj ← fld req "obs"
+  let m := transformKernel fn.eval ids mds cs
+  let mj := match m with
+    | .ok (cs', log) => Json.mkObj [("log", logToJson log), ("data", ratsToJson cs'.data),
+        ("elim", csToJson (eliminateZeros cs'))]
+    | .error e => errToJson e
+  match optFld oj "error" with
+  | some e =>
+    let en ← asStr e
+    -- an error is legitimate exactly when some returned array cannot be assigned to its slice
+    let agree := match m with | .error me => me.name == en | .ok _ => false
+    pure (Json.mkObj (verdictToJson (chk "kernel-error-unexpected" agree) ++ [("agree", .bool agree), ("model", mj)]))
+  | none =>
+    let o : KObs Rat := { log := (← listF asCall oj "log"), data := (← listF asRat oj "data"),
+                          elim := (← asCS (← fld oj "elim")) }
+    let v := chk "kernel" (holdsK ids mds cs o)
+    let agree := match m with
+      | .ok (cs', log) => decide (log = o.log) && decide (cs'.data = o.data) && decide (eliminateZeros cs' = o.elim)
+      | .error _ => false
+    pure (Json.mkObj (verdictToJson v ++ [("agree", .bool agree), ("model", mj)]))
+
+/-- axis independence of an element-wise function:
+`{"op":"axisfree","t":…,"fn":…,"results":[table…]}` — all results equal and cell-wise `g`. -/
+def handleAxisFree (req : Json) : R Json := do
+  let t ← asTable (← fld req "t")
+  let fn ← asFn (← fld req "fn")
+  let rs ← listF asTable req "results"
+  let g ← match fn.elem? with
+    | some g => pure g
+    | none => match fn with
+      | .pa => pure (fun _ => (1 : Rat))
+      | _ => .error "axisfree needs an element-wise fn"
+  let v := firstFail
+    [("axis-free-same", rs.all (fun r => decide (r = rs.headD t))),
+     ("axis-free-cell", rs.all (fun r => cFrame t r && cElem g t r))]
+  let model : Table Rat := { t with rows := t.rows.map (·.map (fun x => if x = 0 then 0 else g x)) }
+  let agree := rs.all (fun r => decide (r = model))
+  pure (Json.mkObj (verdictToJson v ++ [("agree", .bool agree), ("model", tableToJson model)]))
+
+def handle (req : Json) : R Json := do
+  match (← strFD req "op" "transform") with
+  | "transform" => handleTransform req
+  | "kernel" => handleKernel req
+  | "axisfree" => handleAxisFree req
+  | s => .error s!"C13: bad op {s}"
+
 end Biom.C13
